@@ -342,7 +342,8 @@ func (C11Iso) ID() string   { return "C11" }
 func (C11Iso) Name() string { return "C11/isolation" }
 func (C11Iso) Config() world.Config {
 	return world.Config{
-		Accounts: []string{"O", "N", "X", "C1"},
+		// the last account is an ordinary account whose address string happens to end in "jkl" (one in 32768 does)
+		Accounts: []string{"O", "N", "X", "C1", world.MineAcctName("NJ", "jkl")},
 		Storage:  func(p *storagetypes.Params) { p.CollateralPrice = 1000; p.ProofWindow, p.CheckWindow = 50, 100 },
 		GenesisMod: func(cdc codec.JSONCodec, gs app.GenesisState) { // a name of O that expired long ago (records stay in the store)
 			var g rnstypes.GenesisState
@@ -369,6 +370,9 @@ func (C11Iso) Init(env world.Env) mc.Model {
 	mustOK(env.Deliver(storagetypes.NewMsgBuyStorage(o, o, 30, 1_000_000_000, "ujkl")), "plan")
 	start := env.Ctx().BlockHeight()
 	mustOK(env.Deliver(storagetypes.NewMsgPostFile(o, c01F1.merkle, 12, 0, 0, 1, "{}")), "file")
+	// O also holds the name spelled like that account's address with a dot in the fourth-last place
+	nj := w.A(world.MineAcctName("NJ", "jkl")).Bech
+	mustOK(env.Deliver(rnstypes.NewMsgRegisterName(o, nj[:len(nj)-4]+".jkl", 1, "{}", false)), "name shaped like an address")
 	// a prover holds O's file: its proof record (keyed by prover, content, owner O and start) is part of O's deal
 	item, hl := c01F1.proofFor(0)
 	if ok, e := postProofOK(w, env.Deliver(storagetypes.NewMsgPostProof(x, c01F1.merkle, o, start, item, hl, 0))); !ok {
@@ -394,7 +398,9 @@ func (C11Iso) Events(env world.Env, mm mc.Model) []string {
 		evs = append(evs, fmt.Sprintf("CreateFeedVariant:N:%d", i), fmt.Sprintf("UpdateFeedVariant:N:%d", i))
 	}
 	evs = append(evs, "DeleteNotifVariant:N:0", "DeleteNotifVariant:N:1", "DeleteNotifVariant:N:2", "DeleteFileVariant:N")
-	evs = append(evs, "PostSameFile:N") // N posts the same content as O (in O's posting block: same content and start, other owner)
+	evs = append(evs, "PostSameFile:N")   // N posts the same content as O (in O's posting block: same content and start, other owner)
+	nj := world.MineAcctName("NJ", "jkl") // the account whose address ends in "jkl" acts in its own name
+	evs = append(evs, "BlockSenders:"+nj, "NotifyO:"+nj)
 	if mm.(c11Model).Blocks < 1 {
 		evs = append(evs, "NextBlock")
 	}
@@ -469,6 +475,8 @@ func (C11Iso) Apply(env world.Env, mm mc.Model, ev string) mc.Step {
 		msg = notiftypes.NewMsgDeleteNotification(who, w.A("X").Bech, m.NotifT)
 	case "BlockSenders":
 		msg = notiftypes.NewMsgBlockSenders(who, w.A("X").Bech)
+	case "NotifyO":
+		msg = notiftypes.NewMsgCreateNotification(who, o, `{"from":"`+p[1]+`"}`, nil)
 	case "MakePrimary":
 		mp := rnstypes.NewMsgMakePrimary("owner.jkl")
 		mp.Creator = who
